@@ -138,6 +138,7 @@ func main() {
 		rawMode = true
 		genRaw(w, *tier)
 	case "obj":
+		objMode = true
 		genObj(w, *tier)
 	case "sch":
 		replans = 3
@@ -612,7 +613,7 @@ func runCase(w *out.W, id string, sc *scenario, tags ...string) {
 		eps = []entry{{"tidb", func() runRes { return runPlanner(sc, tidbPlan, "int") }}}
 	}
 	for _, ep := range eps {
-		if (hasObj || sc.hasTypes()) && ep.name == "mysql" {
+		if (objMode || hasObj || sc.hasTypes()) && ep.name == "mysql" {
 			continue // the MySQL planner has no object (enum type) changes
 		}
 		r := ep.run()
@@ -629,6 +630,14 @@ func runCase(w *out.W, id string, sc *scenario, tags ...string) {
 			if want := sc.preLine(); strings.Join(r.top, ",") != want {
 				w.Violation(id, "schema-change-not-once", fmt.Sprintf("%s: the executed plan has the schema-level statements [%s], the change list has [%s]; case: %s", ep.name, strings.Join(r.top, ","), want, line))
 			}
+		} else if objMode {
+			// type part of the catalogue (judgeTypes, written independently of the Coq treplay): a type exists when
+			// it is used, is created once, is dropped only when unused
+			tv := "ok"
+			if len(judgeTypes(sc, r.outp)) > 0 {
+				tv = "fail"
+			}
+			obs = append(obs, fmt.Sprintf("%s out=%s replay=%s types=%s", ep.name, obsOut(sc, r.outp), verdict, tv))
 		} else {
 			obs = append(obs, fmt.Sprintf("%s out=%s replay=%s", ep.name, obsOut(sc, r.outp), verdict))
 		}
@@ -639,8 +648,8 @@ func runCase(w *out.W, id string, sc *scenario, tags ...string) {
 		for _, v := range r.more {
 			w.Violation(id, v.class, fmt.Sprintf("%s: %s; case: %s", ep.name, v.msg, line))
 		}
-		if hasObj || sc.hasTypes() {
-			// enum types: not in the Coq model (oracle-only stage "objects")
+		if objMode || hasObj || sc.hasTypes() {
+			// enum types (stage "objects"): the type obligations, evaluated on the Go plan
 			for _, v := range judgeTypes(sc, r.outp) {
 				w.Violation(id, v.class, fmt.Sprintf("%s: %s; plan %s; case: %s", ep.name, v.msg, showOut(r.outp), line))
 			}
@@ -683,7 +692,7 @@ func runCase(w *out.W, id string, sc *scenario, tags ...string) {
 		if ep.name == "sort" {
 			// the hypotheses of the theorems on this case, and C04_safe_exact's prediction
 			if hyp && (hasObj || sc.hasTypes()) {
-				w.Count("hyp:WF+consistent-with-enum-objects(outside the model)")
+				w.Count("hyp:WF+consistent-with-enum-objects")
 			} else if hyp {
 				w.Count("hyp:WF+consistent")
 				predicted := "ok" // theorem C04_safe
@@ -1026,7 +1035,7 @@ func objScenario(r *rng.R) *scenario {
 				case erole[k] == eC || (erole[k] == eK && r.Bool()):
 					c.tcs = append(c.tcs, tch{kind: 'c', k: r.Intn(2), e: 2*k + 1})
 				case erole[k] != eC:
-					c.tcs = append(c.tcs, tch{kind: 'c', k: 2, e: 2 * k})
+					c.tcs = append(c.tcs, tch{kind: 'c', k: 2 + r.Intn(2), e: 2 * k}) // DropColumn, or ModifyColumn away from the enum
 					sc.cat.uses = append(sc.cat.uses, [2]int{c.t.name, k})
 				}
 			}
@@ -1059,7 +1068,7 @@ func objScenario(r *rng.R) *scenario {
 
 // genObj: DetachCycles + SortChanges and postgres.DefaultPlan on change sets with enum objects.
 func genObj(w *out.W, tier string) {
-	w.Rule = "seeded random change sets with enum objects: 1..4 tables (created/dropped/modified, sparse FK graph incl. cycles) x 1..3 enum types (created/dropped/kept) used by columns (inline in CREATE TABLE, AddColumn, ModifyColumn, DropColumn), all changes in random order; sqlx.DetachCycles+SortChanges and postgres.DefaultPlan (the MySQL planner has no object changes). ORACLE-ONLY stage: enum types are not in the Coq model, nothing is compared. Oracle: the table/foreign-key catalogue as in the other stages, plus: a type exists when a table or column uses it, is created once, is dropped only when unused. Non-trivial = the planned order differs from the input order"
+	w.Rule = "seeded random change sets with enum objects: 1..4 tables (created/dropped/modified, sparse FK graph incl. cycles) x 1..3 enum types (created/dropped/kept) used by columns (inline in CREATE TABLE, AddColumn, ModifyColumn, DropColumn), all changes in random order; sqlx.DetachCycles+SortChanges and postgres.DefaultPlan (the MySQL planner has no object changes). (inline in CREATE TABLE, AddColumn, ModifyColumn to and away from the type, DropColumn). Tied to the extended model SortObjModel.v (xplan, xpg_sources, replay of the table projection, treplay): exact plan order incl. the enum types of each created/dropped table, replay verdict, types verdict. Oracle: the table/foreign-key catalogue as in the other stages, plus: a type exists when a table or column uses it, is created once, is dropped only when unused. Non-trivial = the planned order differs from the input order"
 	r := rng.FromEnv(0xC04C)
 	count := 6000
 	if tier == "thorough" {
